@@ -364,6 +364,11 @@ def schemaNumOp (op : String) (args : List String) : String :=
        | some vs => "ok " ++ ",".intercalate (vs.map (fun v => toString (u64Of v)))
        | none => "reject")
     | none => "unmodelled"
+  | "falign", [nat, tok] =>
+    -- struct S (force_align: <tok>) over a member of natural alignment <nat>: the struct's alignment, or reject
+    match litOf tok with
+    | some l => (match forceAlign l (natArg nat) with | some a => s!"ok {a}" | none => "reject")
+    | none => "reject"
   | _, _ => "bad-op"
 
 def layoutOp (op : String) (args : List String) : String :=
@@ -635,6 +640,7 @@ def step (line : String) : String :=
   | "trie" :: args => trieOp args
   | "ids" :: args => layoutOp "ids" args
   | "enum" :: args => schemaNumOp "enum" args
+  | "falign" :: args => schemaNumOp "falign" args
   | "sort" :: args => sortOp ("sort" :: args)
   | "find" :: args => sortOp ("find" :: args)
   | "findn" :: args => sortOp ("findn" :: args)
